@@ -15,8 +15,9 @@ def run(ctx):
     ctx.assumptions = [
         "correspondence and boundary oracle run the real code with integer milliseconds as the time unit (virtual clock, "
         "time.time() and timeouts are ints, banana.EPSILON replaced in-process by its exact decimal value in ms); the code only "
-        "adds, subtracts and compares times, so this is a change of unit; binary-float rounding exactly at a boundary is not modelled "
-        "(the float-second oracle keeps 1 ms distance from every boundary)",
+        "adds, subtracts and compares times, so this is a change of unit; binary-float rounding is covered by the C15_*_binary64 "
+        "theorems on an exact Z model of binary64 +/- (lib/TimersFloat.v, compared with the interpreter's floats on every run; "
+        "normal range, results below 2^31 s); the float-second oracle keeps 1 ms distance from every boundary",
         "a reactor turn runs every due delayed call once and sees one value of time.time() (task.Clock semantics); the order of "
         "the two callbacks inside one turn is proved immaterial (C15_callback_order_immaterial)",
         "transport.loseConnection() leads to connectionLost() at some later time chosen by the schedule (Close / BLost event); "
@@ -40,7 +41,7 @@ def run(ctx):
             ev = [tuple(e) for e in c["events"]]
             o = impl.run_schedule(c["K"], c["T"], ev, exact=True, t0=c.get("t0", 0), payloads=c.get("payloads"))
             record(ctx, cases, c["K"], c["T"], c.get("t0", 0), ev, o, eps, "corpus:" + os.path.basename(path))
-    n = ctx.n(2400, 40000)
+    n = ctx.n(800, 40000)
     for i in range(n):
         K, T, t0, ev, o = gen_schedule(ctx.rng, impl)
         record(ctx, cases, K, T, t0, ev, o, eps, "generated")
@@ -55,8 +56,15 @@ def run(ctx):
             o = impl.run_schedule(K, T, ev, exact=True, t0=t0)
             record(ctx, cases, K, T, t0, ev, o, eps, "pattern")
     import time as _t
+    import os as _os
     tm = {}
+    cpu = {}
+
+    def _cpu(tag):
+        x = _os.times()
+        cpu[tag] = round(x[0] + x[1] + x[2] + x[3], 1)
     tm['schedules'] = round(_t.time() - ctx.t0, 1)
+    _cpu('schedules')
     # 2. correspondence with the Coq model
     model_ok = ok
     if not ok:
@@ -65,8 +73,14 @@ def run(ctx):
     if model_ok:
         correspond(ctx, cases)
     tm['correspond'] = round(_t.time() - ctx.t0, 1)
+    _cpu('correspond')
     # 3. float seconds, unmodified EPSILON
     float_oracle(ctx, impl)
+    fl_ok = ok
+    if not ok:
+        fl_ok, _ = ctx.coq_build(["lib/TimersFloat.vo"])
+    if fl_ok:
+        binary64_correspond(ctx)
     # 4. pending calls fail with DeadReferenceError on teardown
     pending_calls(ctx, impl, eps)
     call_states(ctx, impl, eps)
@@ -75,16 +89,20 @@ def run(ctx):
         calls_correspond(ctx)
     tub_level(ctx, impl)
     tm['float+calls+tubs'] = round(_t.time() - ctx.t0, 1)
+    _cpu('float+calls+tubs')
     # 5. PING / PONG
     pingpong(ctx, impl, model_ok)
     tm['pingpong'] = round(_t.time() - ctx.t0, 1)
+    _cpu('pingpong')
     wire_ok = ok
     if not ok:
         wire_ok, _ = ctx.coq_build(["lib/TimersWire.vo"])
     if wire_ok:
         wire_correspond(ctx, impl)
     tm['wire'] = round(_t.time() - ctx.t0, 1)
+    _cpu('wire')
     ctx.extra['cumulative_s'] = tm
+    ctx.extra['cumulative_cpu_s'] = cpu
     if not ok and len(ctx.failures) == before:
         ctx.fail("proof-broken", "theorem closure props/C15.vo no longer builds against the regenerated gen/TimersGen.v:\n"
                  + log[-2500:], replay=dict(log=log[-6000:]), has_input=False)
@@ -195,7 +213,7 @@ def steady_trickle(ctx, impl):
     the latest arrival is older than T / K)."""
     rng = ctx.rng
     eps = impl.eps_ms()
-    for trial in range(ctx.n(120, 1500)):
+    for trial in range(ctx.n(50, 1500)):
         K = rng.choice([None, 2000, 5000])
         T = rng.choice([3000, 3000, 1000, 7000])
         t0 = rng.choice([0, 17])
@@ -762,7 +780,9 @@ def pingpong(ctx, impl, model_ok):
         k = 0
         for bi in range(len(bounds)):          # every token boundary, PING and PONG, numbers cycled
             for kind in ("PING", "PONG"):
-                plans.append([(bi, kind, nums[k % len(nums)])])
+                # quick tier: a PING at every boundary, a PONG at the first 12 boundaries and every third one after
+                if kind == "PING" or ctx.tier == "thorough" or bi < 12 or bi % 3 == 0:
+                    plans.append([(bi, kind, nums[k % len(nums)])])
                 k += 1
         for _ in range(ctx.n(12, 200)):        # several insertions at once (also several at one boundary)
             plans.append(sorted(((rng.randrange(len(bounds)), rng.choice(["PING", "PONG"]), rng.choice(nums))
@@ -864,7 +884,8 @@ def discarding(ctx, impl, nums):
         k = si
         for gap in range(len(tokens) + 1):
             for kind in ("PING", "PONG"):
-                plans.append([(gap, kind, nums[k % len(nums)])])
+                if kind == "PING" or ctx.tier == "thorough" or gap % 3 == 0:
+                    plans.append([(gap, kind, nums[k % len(nums)])])
                 k += 1
         for _ in range(ctx.n(10, 150)):
             plans.append(sorted(((rng.randrange(len(tokens) + 1), rng.choice(["PING", "PING", "PONG"]), rng.choice(nums))
@@ -1073,9 +1094,10 @@ def calls_correspond(ctx):
 WIREBODY = """
 Local Open Scope Z_scope.
 Definition rc (r : res (list Z)) : list Z := match r with Ok l => l | Exc _ => [-1] end.
+Definition voc : list (Z * list Z) := %s.
 Definition cases : list (Z * list item * list (list (list Z))) := %s.
 Eval vm_compute in map (fun '(mode, items, css) =>
-   (rc (wire items), run_expect mode [] items, map (run_chunks mode []) css, run_chunks mode [] [plain items])) cases.
+   (rc (wire items), run_expect mode voc items, map (run_chunks mode voc) css, run_chunks mode voc [plain items])) cases.
 """
 
 
@@ -1088,17 +1110,24 @@ def wire_correspond(ctx, impl):
     nums = [0, 1, 127, 128, 300, 2 ** 64 + 5, 2 ** 448 - 1]
     cases = []
     fixed = __import__("random").Random(1507)
-    for trial in range(ctx.n(60, 400)):
+    # regression witnesses: a PING spliced INTO a STRING token turns its body byte into a VOCAB token (needs the vocabulary)
+    witnesses = [("any", [("Bytes", b"\x01"), ("Ping", 9), ("Bytes", b"\x82\x87")]),
+                 ("any", [("Bytes", b"\x01"), ("Ping", 0), ("Bytes", b"\x82\x87"), ("Ping", 5), ("Bytes", b"\x00\x87")])]
+    for trial in range(-len(witnesses), ctx.n(24, 400)):
         r_ = fixed if trial < 12 else rng          # a fixed family first: detection does not depend on the random stream
-        mode, toks = impl.policy_stream(r_)
-        items = []
-        for t in toks:
-            while r_.random() < 0.3:
-                items.append((r_.choice(["Ping", "Ping", "Pong"]), r_.choice(nums)))
-            items.append(("Bytes", t))
-        while r_.random() < 0.4:
-            items.append((r_.choice(["Ping", "Pong"]), r_.choice(nums)))
-        if trial % 7 == 3 and items:                 # a keepalive token that is NOT between two tokens: `placed` must say so
+        if trial < 0:
+            mode, items = witnesses[trial + len(witnesses)]
+            items = list(items)
+        else:
+            mode, toks = impl.policy_stream(r_)
+            items = []
+            for t in toks:
+                while r_.random() < 0.3:
+                    items.append((r_.choice(["Ping", "Ping", "Pong"]), r_.choice(nums)))
+                items.append(("Bytes", t))
+            while r_.random() < 0.4:
+                items.append((r_.choice(["Ping", "Pong"]), r_.choice(nums)))
+        if trial >= 0 and trial % 7 == 3 and items:                 # a keepalive token that is NOT between two tokens: `placed` must say so
             j = r_.randrange(len(items))
             if items[j][0] == "Bytes" and len(items[j][1]) > 1:
                 b = items[j][1]
@@ -1119,6 +1148,9 @@ def wire_correspond(ctx, impl):
         ctx.case(["wire", mode, [(k, v.hex() if k == "Bytes" else str(v)) for k, v in items]], nontrivial=any(k != "Bytes" for k, _ in items))
         ctx.hist("origin", "wire")
     from harness.c07 import modecode
+    from harness.c07_impl import VOCAB_TABLE
+    # the receiver's incoming vocabulary (a body byte of a mis-spliced token can be read as a VOCAB token)
+    voc = coq_list(["(%d, %s)" % (k, coq_list(list(v), coq_Z)) for k, v in sorted(VOCAB_TABLE.items())])
 
     def coq_item(x):
         if x[0] == "Bytes":
@@ -1137,7 +1169,7 @@ def wire_correspond(ctx, impl):
                     pos += n
                 css.append(coq_list(parts))
             lines.append("(%d, %s, %s)" % (modecode(mode), coq_list(items, coq_item), coq_list(css)))
-        jobs.append(("C15_wire_%d" % (k // STEP), WIREBODY % coq_list(lines)))
+        jobs.append(("C15_wire_%d" % (k // STEP), WIREBODY % (voc, coq_list(lines))))
     req = ["Verif.lib.PyLite", "Verif.gen.BananaGen", "Verif.gen.TimersGen", "Verif.lib.Token", "Verif.lib.Recv",
            "Verif.lib.BananaRecv", "Verif.lib.TimersWire"]
     from concurrent.futures import ThreadPoolExecutor
@@ -1149,7 +1181,7 @@ def wire_correspond(ctx, impl):
             return e
     with ThreadPoolExecutor(max_workers=6) as ex:
         results = list(ex.map(one, jobs))
-    nbad = total = placed_n = 0
+    nbad = total = placed_n = abstained = 0
     for ji, res in enumerate(results):
         if isinstance(res, Exception):
             ctx.fail("correspondence-broken", "the byte-level PING/PONG model could not be evaluated: " + str(res)[-1500:], has_input=False)
@@ -1160,6 +1192,11 @@ def wire_correspond(ctx, impl):
             ctx.traces += 1
             mwire, mexp, mruns, mplain = m
             placed, exp_ev, exp_snap, exp_undisturbed = mexp
+            if any([99] in [list(e) for e in mev] for (mev, _) in list(mruns) + [mplain]):
+                # the C07 model abstains (EUnmodelled: a non-ASCII index token, only reachable through a mis-spliced token)
+                abstained += 1
+                ctx.hist("wire-placed", "model-abstains")
+                continue
             diffs = []
             if list(mwire) != list(stream):
                 diffs.append("bytes of the woven stream: translated sendPING/sendPONG give %r, the real int2b128 %r" % (list(mwire)[:80], list(stream)[:80]))
@@ -1199,4 +1236,51 @@ def wire_correspond(ctx, impl):
                          has_input=False)
     ctx.extra["wire_correspondence_cases"] = total
     ctx.extra["wire_correspondence_placed"] = placed_n
+    ctx.extra["wire_correspondence_model_abstained"] = abstained
     ctx.extra["wire_correspondence_disagreements"] = nbad
+
+
+# ------------------------------------------------------------------------------------------ binary64 model vs the machine's floats
+
+def binary64_correspond(ctx):
+    """lib/TimersFloat.v's fadd / fsub (exact Z model of IEEE binary64 + and -, unit 2^-120 s) against the interpreter's
+    float arithmetic on time-like operands: epoch time stamps, timeouts, EPSILON, ages, nested now + (T + EPSILON)"""
+    import random
+    from fractions import Fraction
+    import foolscap.banana as ban
+    U = 120
+    eps = float(getattr(ban, "EPSILON", 0.1)) if isinstance(getattr(ban, "EPSILON", 0.1), float) else 0.1
+
+    def units(x):
+        fr = Fraction(x) * 2 ** U
+        return int(fr) if fr.denominator == 1 else None
+    cases = []
+    for rr in (random.Random(64), ctx.rng):
+        for _ in range(ctx.n(12, 200)):
+            now = 1.7e9 + rr.random() * 3e8
+            last = now - rr.choice([0.0, rr.random() * 1e-3, rr.random() * 10, rr.uniform(1, 1e5)])
+            T = rr.choice([0.5, 2.0, 3.0, 240.0, rr.uniform(1e-3, 1e4), float(rr.randint(1, 5000))])
+            for (op, a, b) in (("add", T, eps), ("add", now, T + eps), ("sub", now, last), ("add", rr.random(), rr.random()),
+                               ("sub", T + eps, T), ("add", now, last)):
+                r = a + b if op == "add" else a - b
+                ua, ub, ur = units(a), units(b), units(r)
+                if None in (ua, ub, ur) or abs(r) >= 2.0 ** 31:
+                    continue
+                cases.append((op, ua, ub, ur, a, b))
+    body = ("Local Open Scope Z_scope.\nDefinition cases : list (bool * Z * Z) := %s.\n"
+            "Eval vm_compute in map (fun '(isadd, a, b) => if isadd : bool then fadd 120 a b else fsub 120 a b) cases.\n"
+            % coq_list(["(%s, %s, %s)" % ("true" if op == "add" else "false", coq_Z(a), coq_Z(b)) for (op, a, b, r, fa, fb) in cases]))
+    try:
+        (vals,) = ctx.coq_eval("C15_binary64", body, requires=["Verif.lib.Timers", "Verif.lib.TimersRound", "Verif.lib.TimersFloat"])
+    except common.CoqEvalError as e:
+        ctx.fail("correspondence-broken", "the binary64 model could not be evaluated: " + str(e)[-1500:], has_input=False)
+        return
+    nbad = 0
+    for (op, a, b, r, fa, fb), m in zip(cases, vals):
+        ctx.traces += 1
+        if m != r:
+            nbad += 1
+            ctx.fail("correspondence/binary64", "%r %s %r: the interpreter's float result is %d units of 2^-120 s, the model's %d"
+                     % (fa, "+" if op == "add" else "-", fb, r, m), replay=dict(op=op, a=repr(fa), b=repr(fb)), has_input=False)
+    ctx.extra["binary64_correspondence_cases"] = len(cases)
+    ctx.extra["binary64_correspondence_disagreements"] = nbad
